@@ -142,13 +142,18 @@ def _product(options):
 
 
 def count_text(c):
-    """Counts used here are dyadic rationals with few digits: repr is exact and grammar-conform."""
+    """The count as the grammar writes it (digits, optionally '.' and digits - no exponent), denoting exactly
+    the float c: the shortest decimal that reads back as c (repr), written out plainly when repr uses an
+    exponent.  Counts that need all 17 significant digits come back from the parser bit for bit."""
     if c == 1:
         return ""
-    if c == int(c):
+    if c == int(c) and abs(c) < 1e22:
         return "%d" % int(c)
     s = repr(float(c))
     if "e" in s or "E" in s:
+        from decimal import Decimal
+        s = format(Decimal(s), "f")
+    if float(s) != c or not s.replace(".", "", 1).isdigit():
         raise ValueError("count %r has no plain decimal form" % (c,))
     return s
 
@@ -250,3 +255,77 @@ def _top(seq, nodes, d):
                     for rest in walk(cut):
                         yield [head] + rest
     return walk(0)
+
+
+# ------------------------------------------------------------------ counts that need every digit of a float
+def slots(tree):
+    """Number of count positions of a tree: every leaf count and every group multiplier."""
+    return sum(1 + (slots(x) if isinstance(x, (list, tuple)) else 0) for c, x in tree)
+
+
+def filled(tree, values, start=0):
+    """(copy of the tree whose count positions, in reading order, hold values[start:], next index)."""
+    out, k = [], start
+    for c, x in tree:
+        v = values[k]
+        k += 1
+        if isinstance(x, (list, tuple)):
+            sub, k = filled(x, values, k)
+            out.append([v, sub])
+        else:
+            out.append([v, x])
+    return out, k
+
+
+def counts_of(tree):
+    """The counts at the positions of a tree, in the reading order of `filled`."""
+    out = []
+    for c, x in tree:
+        out.append(c)
+        if isinstance(x, (list, tuple)):
+            out.extend(counts_of(x))
+    return out
+
+
+def placements(shape, values):
+    """Every way the framework puts the `values` into a tree `shape` (its own counts are the baseline):
+    each value at each position with the baseline everywhere else, then every position at once - position k
+    holds values[(k + r) % len(values)] for every rotation r."""
+    base = counts_of(shape)
+    n = len(base)
+    for k in range(n):
+        for v in values:
+            yield filled(shape, base[:k] + [v] + base[k + 1:])[0]
+    for r in range(len(values)):
+        yield filled(shape, [values[(k + r) % len(values)] for k in range(n)])[0]
+
+
+def cross(shape, values):
+    """Every assignment of `values` to the positions of the shape (all positions at once)."""
+    n = slots(shape)
+    for combo in _product([list(values)] * n):
+        yield filled(shape, list(combo))[0]
+
+
+def power_of_two(c):
+    q = Fraction(c)
+    return q > 0 and (q.numerator == 1 or q.denominator == 1) and \
+        (q.numerator & (q.numerator - 1)) == 0 and (q.denominator & (q.denominator - 1)) == 0
+
+
+def terms(tree, factors=(), out=None):
+    """{item: [number of leaves, largest number of factors of one leaf that are not powers of two]}: how the
+    total of an item comes about.  One leaf whose product has at most two such factors is ONE correctly
+    rounded multiplication in whatever order it is carried out (powers of two only move the exponent), so its
+    float value is determined; everything else (a sum of leaves, a product of three or more inexact factors)
+    is determined up to the rounding of the single operations."""
+    if out is None:
+        out = {}
+    for c, x in tree:
+        if isinstance(x, (list, tuple)):
+            terms(x, factors + (c,), out)
+        else:
+            rec = out.setdefault(x, [0, 0])
+            rec[0] += 1
+            rec[1] = max(rec[1], sum(1 for f in factors + (c,) if not power_of_two(f)))
+    return out
